@@ -118,6 +118,17 @@ func (p *idxProver) minLen(v ssa.Value, at ssa.Instruction) int {
 			up(m)
 		}
 	case *ssa.Slice:
+		if x.High != nil && x.Max == nil {
+			// s[lo:hi] has hi-lo bytes: a proved lower bound of hi with a constant (or absent) lo
+			lo := int64(0)
+			okc := true
+			if x.Low != nil {
+				lo, okc = constInt(x.Low)
+			}
+			if hb, okh := p.lowerBound(x.High, at); okc && okh && hb-lo > 0 {
+				up(int(hb - lo))
+			}
+		}
 		if x.High == nil {
 			lo := int64(0)
 			okc := true
